@@ -224,7 +224,7 @@ func genChain(t *rapid.T) (Doc, Keep) {
 
 func gen(t *rapid.T) Case {
 	var c Case
-	if vkit.Tier() == "thorough" && rapid.IntRange(0, 499).Draw(t, "pbf") == 0 {
+	if vkit.Tier() == "thorough" && rapid.IntRange(0, 499).Draw(t, "pbf") == 317 {
 		// the repository's Honolulu extract through ExtractPBF (seconds per case)
 		c.Engine = "pbf"
 		c.Keep = genPBFKeep(t)
@@ -453,7 +453,7 @@ func TestProp(t *testing.T) {
 			"relations incl. self and mutual cycles), tags from a 3x3 alphabet, 5% with dangling references; element order conventional, reversed, a drawn permutation, or every way directly after " +
 			"the last node it references; keep = KeepTags (drawn key/value sets incl. empty value lists), KeepBounds (drawn box; objects inside, outside, on the border), KeepAll; keepTags on/off; " +
 			"1-8 workers (GOMAXPROCS). Engines: (sched) the owned scheduler - the pool's workers and reading loop park at the verif hook points and inside the keep function; a drawn choice list picks " +
-			"which enabled entity runs next, so a schedule is a replayable list of integers; (plain) no hook, 1-3 repetitions at GOMAXPROCS 1-16; (stress, 1 case in 11) no hook, 20-60 repetitions at GOMAXPROCS 2-64 of a drawn document or of a one-store-per-pass dependency chain (tagged relation -> ... -> relation -> way -> nodes listed deepest first), for interleavings between the hook points that only real threads produce; (filter) Filter(KeepTags|KeepAll) of an extraction; (pbf, thorough only, 1 in 500 cases) the repository's Honolulu extract through ExtractPBF with drawn tag/bounds filters against the model fed by the same scanner's object stream. " +
+			"which enabled entity runs next, so a schedule is a replayable list of integers; (plain) no hook, 1-3 repetitions at GOMAXPROCS 1-16; (stress, 1 case in 11) no hook, 20-60 repetitions at GOMAXPROCS 2-64 of a drawn document or of a one-store-per-pass dependency chain (tagged relation -> ... -> relation -> way -> nodes listed deepest first), for interleavings between the hook points that only real threads produce; (filter) Filter(KeepTags|KeepAll) of an extraction; (pbf, thorough only, a fraction of a percent of the cases) the repository's Honolulu extract through ExtractPBF with drawn tag/bounds filters against the model fed by the same scanner's object stream. " +
 			"Oracle: sequential least-fixed-point model (selected by keep against the set itself, or referenced from the set) computed by naive iteration; id sets and payloads (coordinates, node " +
 			"lists, members, tags iff keepTags) must equal the model for every schedule and worker count; Check() nil when the document has no dangling reference; Filter result = model applied to " +
 			"the extracted data, subset, closed, idempotent. Non-trivial = some object is selected only because of state built earlier (bounds-selected way/relation or >=2 dependency levels) and the " +
